@@ -23,6 +23,10 @@ def gen_cond(rng, names, depth=2):
             return ("bin", "==", ("bin", "&", ("var", 0, [n]), num(1)), num(rng.randint(0, 1)))
         if k < 0.85:
             return ("var", 0, ["FLAG" + str(rng.randint(0, 1))])
+        if k < 0.90:
+            # a dot-relative reference: conditions are decided from constants alone, before any label context exists,
+            # so this can never be decided - whatever global or nested constant carries the same short name
+            return ("bin", rng.choice(["==", "!=", "<"]), ("var", rng.choice([1, 1, 2]), [n]), num(rng.randint(-2, 6)))
         return ("bool", rng.random() < 0.5)
     if r < 0.55:
         return ("bin", rng.choice(["&&", "||"]), gen_cond(rng, names, depth - 1), gen_cond(rng, names, depth - 1))
@@ -89,6 +93,9 @@ class Gen:
                 nodes.append(("label", "L%d" % self.nlabel, 0))
                 if rng.random() < 0.5:
                     nodes.append(("label", "loc", 1))
+                elif rng.random() < 0.4:
+                    # a nested constant that shares its short name with a global one
+                    nodes.append(("raw", ".%s = %d" % (rng.choice(["A", "B", "FLAG0"]), rng.randint(0, 9))))
             elif depth > 0:
                 arms = []
                 sh = self.fresh() if rng.random() < 0.4 else None
